@@ -79,7 +79,7 @@ CLAIMED = {
             "IFM / accumulator partitions double-buffer the block at the bank granule; try_block_config accepts only positive multiples of the "
             "micro-block within the maximum block and returns exactly that layout; get_arch_block_config (the generator) requests that validation for "
             "exactly the operation's own block, shapes, bit depth, traversal, kernel, LUT use, scalar/tensor second input and scaling (argument capture), and generate_shram_registers writes exactly that layout.",
-            PYVC_NOTE + " float '/ 8' handled as exact dyadic arithmetic (exactness proved per operation); find_block_config search loop and the "
+            PYVC_NOTE + " float '/ 8' handled as exact dyadic arithmetic (exactness proved per operation); find_block_config search loop (BOUNDED stand-in only: its results on a stated grid are re-validated by try_block_config) and the "
             "public query loop are not yet under contract in this revision.",
             "contract-based deductive verification (symbolic execution of real AST + SMT), per-accelerator instantiation", "DESIGN.md 3/C15"),
     "C17": ("Unbounded proof over all word lists (symbolic length and content) that the payload is COP1, config action, NOP padding to a "
